@@ -792,6 +792,11 @@ func (x *exec) next(st *State, ins *ssa.Next) {
 	v, _ := x.mapLookup(st, it.MapT, it.Map, k)
 	x.useSetLib()
 	st.assume(Le(app(SInt, "card", it.Visited), BigLit(p2(48)))) // physical bound on iterations
+	// set arithmetic: if the visited keys are keys of the map, then with the new key k there are
+	// still at most card(keys) of them (c is a witness of "visited is not a subset of keys")
+	wit := x.ctx.fresh("subwit", SInt)
+	st.assume(Implies(ok, Or(And(Select(it.Visited, wit), Not(Select(has, wit))),
+		Le(app(SInt, "card", Store(it.Visited, k, True)), app(SInt, "card", has)))))
 	nit := &MapIterV{Map: it.Map, MapT: it.MapT, Visited: Ite(ok, Store(it.Visited, k, True), it.Visited)}
 	x.setCell(st, p.Cell.ID, nit)
 	fr.env[ins] = TupleV{ok, k, v}
